@@ -151,11 +151,19 @@ def sweep(ctx, n):
         from oracles.c08 import all_objs
         import matplotlib
         matplotlib.use("Agg")
-        for k in range(max(len(CLASSES) + 2, n // 2)):
+        for k in range(max(2 * (len(CLASSES) + 2), n // 2)):
             nps = np.random.default_rng(rng.randrange(2**31))
             cls = (CLASSES + ["Tetrahedron", "Sensor"])[k % (len(CLASSES) + 2)]
+            rescaled = False
             if cls == "Sensor":
                 o = magpy.Sensor(pixel=nps.uniform(-1, 1, (2, 2, 3)), position=nps.uniform(-1, 1, (2, 3)), handedness=rng.choice(["left", "right"]))
+            elif (k // (len(CLASSES) + 2)) % 2:  # every class once as it is and once resting at the origin in other units
+                rescaled = True
+                # an object in small / large numbers resting exactly at the origin with the unit orientation (the pose at which
+                # placing is a no-op): the scene is drawn in mm, um, km, ... and the object must come out of it unchanged
+                o = make(cls, nps, scale=rng.choice([1e-2, 1e-3, 1e-6, 1e3]))
+                o.position, o.orientation = (0, 0, 0), None
+                kinds["no-alter:origin-rescaled"] = kinds.get("no-alter:origin-rescaled", 0) + 1
             else:
                 o = make(cls, nps, path=rng.choice([1, 2]))
             if cls == "Tetrahedron":
@@ -176,7 +184,7 @@ def sweep(ctx, n):
             if [snap_obj(x) for x in objs] != before:
                 bad(f"show-mutates:{cls}", f"show(backend={backend!r}) modified the object (geometry, pose, excitation, children or style)",
                     {"class": cls, "backend": backend})
-            if cls == "Tetrahedron" and backend == "plotly" and top is o:
+            if cls == "Tetrahedron" and backend == "plotly" and top is o and not rescaled:  # (drawn in metres)
                 V = np.concatenate([xyz(t) for t in fig.data if type(t).__name__ == "Mesh3d"])
                 want = np.concatenate([o._orientation[j].apply(np.array(o.vertices)) + o._position[j] for j in range(len(o._position))])
                 if any(np.min(np.linalg.norm(V - w, axis=1)) > 1e-9 for w in want) or any(np.min(np.linalg.norm(want - q, axis=1)) > 1e-9 for q in V):
